@@ -2,32 +2,85 @@ from props import *  # noqa: F401,F403
 
 # ------------------------------------------------------------------------------------------------
 rc_bin("c12_rc", ["harness/c12_sampling.cc"], lib=True)
+rc_bin("c12_tsan", ["harness/c12_sampling.cc"], lib=True, san="tsan")
 PROPS["C12"] = dict(
     level_text="Metamorphic and reference-checked property tests (rapidcheck, ASan/UBSan) over generated (ratio pair, "
                "trace id set) cases whose ids are CONSTRUCTED around ratio*2^64 (+-40, +-4096, +-2^k, 65-point sweeps, "
-               "top/bottom of the id space), over generated parent contexts with a call-counting delegate, and through a "
-               "real sdk Tracer with a planned id generator: every explored case satisfied the constants, monotonicity in "
-               "ratio and in the id, independence, and the ParentBased rules. Exploration is the right level: the domain "
+               "top/bottom of the id space) and asked twice with different last 8 bytes, over generated parent contexts "
+               "with a call-counting delegate, through a real sdk Tracer with a planned id generator (explicit, Context "
+               "and active-span parents), and from 2..3 real threads on one shared sampler (ASan and TSan builds): every "
+               "explored case satisfied the constants, monotonicity in ratio and in the id, independence, the ParentBased "
+               "rules and 'span flag == sampler decision' for every parent. Exploration is the right level: the domain "
                "(2^64 ids x all doubles x all parents) cannot be enumerated, the risk sits at constructible floating-point "
                "boundaries, and the oracles are cheap.",
     technique="metamorphic PBT (monotone in ratio / in id, independence of name, kind, attributes, links, parent, instance, "
-              "call history) + exact integer reference threshold with a tolerance band + call-counting delegate model + "
-              "end-to-end Tracer check; rapidcheck",
-    rule="Cases are choice streams decoded into ratio pairs with boundary-constructed trace ids (sets and sweeps), "
-         "ParentBased call sequences, constant-sampler call sequences and Tracer span sequences.",
+              "call history, last 8 id bytes, asking thread) + exact integer reference threshold with a tolerance band + "
+              "call-counting delegate model that records every argument it is shown + end-to-end Tracer check; rapidcheck; "
+              "real-thread smoke under ASan and TSan",
+    rule="Cases are choice streams decoded into ratio pairs with boundary-constructed trace ids (sets and sweeps, each id "
+         "with two tails), ParentBased call sequences, constant-sampler call sequences, Tracer span sequences (roots and "
+         "children under plain and ParentBased samplers) and shared-sampler thread plans.",
+    generators="gen_ratio (eighths, uniform, 2^-k, 1-2^-k, decimals, m*2^-k, tiny/subnormal, below 0, above 1, near 1, near 0, "
+               "+-3 ulps) -> pairs (adjacent / independent / equal / delta / threshold+d); ids around floor(ratio*2^64) of "
+               "either ratio (+-40, +-4096, +-2^k, uniform, edges, between, top) with 6 tail shapes and a second tail "
+               "(all bits / one bit / one byte / random mask); sweeps of 65 ids with step 2^0..2^14, every point with two "
+               "tails; gen_parent (valid: local/remote x any flags byte x trace state of 0/1/2..5/32 members, ids with a zero "
+               "half; invalid: default, sampled flag, zero trace id, zero span id, all zero with flags ff); gen_extras (7 "
+               "names incl. empty / 300 bytes / non-UTF8, 5 kinds, 0..3 attributes, 0..2 links); scripted delegates "
+               "(3 decisions x trace state x attributes, or AlwaysOn / AlwaysOff / ratio inside); Tracer spans: roots named 5 "
+               "ways, children named 3 ways (SpanContext, Context{span}, active span of the thread), root ids at the "
+               "threshold; thread plans: 2..3 threads x 1..8 rounds x start offset x direction over 2..16 questions",
+    oracle="(1) constants of the statement: ratio <= 0 never samples, ratio >= 1 always; (2) exact integer reference "
+           "floor(ratio*2^64) with a two-sided tolerance band; (3) metamorphic: sampled at r => sampled at every r' >= r; "
+           "sampled ids are a prefix of the id order; same decision with another name / kind / attributes / links / parent / "
+           "instance / repetition / last 8 id bytes / asking thread; (4) ParentBased: valid parent => decision == parent's "
+           "sampled bit, trace state == parent's, delegate not consulted; no valid parent => delegate consulted exactly once "
+           "about exactly this span (id, name, kind, attribute and link contents) and its answer (decision, trace state, "
+           "attributes) returned; (5) AlwaysOn / AlwaysOff: the constant decision for every input; (6) Tracer: sampled flag "
+           "of the started span (context and exported data) == decision of an independently built sampler for EVERY parent "
+           "(no exemption: a plain sampler's DROP under a sampled parent must clear the flag), IsRecording / OnStart / OnEnd "
+           "follow the decision, a counting sampler is consulted once per span (never for a child under ParentBased) and is "
+           "shown the span's own trace id / name / kind / attributes / links and the parent context exactly as the caller "
+           "named it (ids, flags byte, remote, trace state), the span's trace state is the sampler's explicit answer, else "
+           "the parent's; (7) threads: every answer of the shared instance equals the single-threaded answer fixed before "
+           "the threads start (verdict independent of the interleaving), TSan reports races",
     assumptions=[
-        "the ratio sampler maps the FIRST 8 bytes of the trace id, read in host byte order, onto [0,2^64) (anchor: "
-        "memcpy into a uint64); the reference demands 'sampled' only when that value is more than 8 + 2^-50*max(x,T) "
-        "below floor(ratio*2^64) and 'dropped' only when it is as far above; inside the band only the metamorphic "
-        "relations decide",
+        "STRONGER THAN THE TEXT (byte order): the statement only says 'monotone function of the trace id'; the oracle pins "
+        "the map the pinned tree implements - the FIRST 8 bytes of the trace id, read in HOST byte order (anchor: memcpy "
+        "into a uint64), onto [0,2^64), the last 8 bytes being irrelevant. The reference, the monotone-in-id relation and "
+        "the 'same leading 8 bytes, other tail => same decision' relation all use this map. An implementation that read "
+        "the id big-endian or used the last 7/8 bytes (the direction of the current OpenTelemetry specification) could "
+        "satisfy the statement and would still be reported; such a change needs the map in harness/c12_sampling.cc "
+        "(make_trace_id / first8) changed with it",
+        "the reference demands 'sampled' only when the mapped id is more than 8 + 2^-50*max(x,T) below floor(ratio*2^64) "
+        "and 'dropped' only when it is as far above; inside the band only the metamorphic relations decide (so '<=' vs '<' "
+        "and +-1 changes of the threshold are, consistently with the statement, not judged)",
         "NaN ratios are outside the stated domain and never generated",
         "a constructor that rejects an out-of-range ratio with the documented std::invalid_argument would be accepted "
         "(the pinned tree clamps instead)",
+        "GetDescription strings are NOT part of the statement: their form (TraceIdRatioBasedSampler{<ratio>}, "
+        "ParentBased{<delegate>}, AlwaysOnSampler / AlwaysOffSampler, equal between instances, stable across calls) is "
+        "only classified in the tags desc-documented-form / desc-other-form / desc-differs-between-instances / "
+        "desc-changed-after-calls and never produces a violation; the strings are still read in full under ASan",
+        "STRONGER THAN THE TEXT (trace state of the constant samplers): 'always-on and always-off are constant' speaks of "
+        "the decision only; the oracle additionally requires that a non-null trace state returned by AlwaysOn / AlwaysOff "
+        "is the parent's (for an invalid parent: the parent's or the empty one), because the Tracer uses a returned trace "
+        "state verbatim and a trace's participants would otherwise lose it",
         "a null trace state returned by ParentBased/AlwaysOn/AlwaysOff for a valid parent is accepted at sampler level "
         "(the Tracer falls back to the parent's trace state); at Tracer level the child's trace state must equal the "
-        "parent's",
-        "through the Tracer, an unsampled decision of a non-ParentBased sampler under a SAMPLED parent is not judged "
-        "here (that is property C05); all other combinations are",
+        "parent's unless the configured (scripted) sampler explicitly answered another one (sampler.h: 'The tracestate used "
+        "by the span'); for a root span without such an answer both the empty trace state and that of an explicitly named "
+        "invalid parent context are accepted",
+        "through the Tracer the sampled flag must equal the sampler's decision for every combination of sampler and "
+        "parent, including an unsampled decision of a non-ParentBased sampler under a SAMPLED parent (finding F2, fixed "
+        "in ff6b67a: the flag used to be inherited; the former exemption of that combination is removed)",
+        "the arguments a sampler is shown by the Tracer are judged against sampler.h (anchor): the new span's trace id, "
+        "name, kind, attributes, links, and the parent's SpanContext for a child; for a root span only 'an invalid "
+        "SpanContext' is required, not which one",
+        "of the ways to name a parent, explicit SpanContext, Context{span} and the thread's active span are generated; "
+        "Context{valid span + root marker} and nested active spans are the business of property C05. Whether the id "
+        "generator declares its ids random has no observable effect on the sampled flag and is generated only as noise",
+        "the multi-thread target owns no schedule: its verdict is interleaving-independent, it adds evidence only",
         SC_NOTE,
     ],
     runs=[
@@ -36,5 +89,8 @@ PROPS["C12"] = dict(
         run("parent", "c12_rc", "parent_based", "rc", dict(procs=3, cases=60000), dict(procs=8, cases=600000)),
         run("constant", "c12_rc", "constant", "rc", dict(procs=1, cases=30000), dict(procs=2, cases=400000)),
         run("tracer", "c12_rc", "tracer_flag", "rc", dict(procs=4, cases=50000), dict(procs=8, cases=500000)),
+        run("threads", "c12_rc", "shared_threads", "rc", dict(procs=1, cases=1500), dict(procs=2, cases=15000), deterministic=False),
+        run("threads-tsan", "c12_tsan", "shared_threads", "rc", dict(procs=1, cases=300), dict(procs=2, cases=4000), deterministic=False,
+            replay_bin="c12_tsan"),
     ],
 )
